@@ -162,7 +162,7 @@ def report(prop, tier, seed, results, known, wall) -> int:
     # -- violations: replay each distinct obligation (first witness) on the real code
     exit_code = 0
     reported = set()
-    os.makedirs(os.path.join(VERIF, 'replays', prop), exist_ok=True)
+    os.makedirs(os.path.join(_outdir('replays'), prop), exist_ok=True)
     undecided_replays = []
     for r, o in violations:
         if o['name'] in reported:
@@ -192,12 +192,12 @@ def report(prop, tier, seed, results, known, wall) -> int:
                 # the real code does not exhibit it under CPython: encoding disagreement => undecided
                 rp['replay']['confirmed'] = False
                 undecided_replays.append(o['name'])
-                path = os.path.join(VERIF, 'replays', prop, _fname(o['name']) + '.undecided.json')
+                path = os.path.join(_outdir('replays'), prop, _fname(o['name']) + '.undecided.json')
                 json.dump(rp, open(path, 'w'), indent=1, default=str)
                 problems.append(f"{r['id']}: {o['name']} refuted symbolically but the concrete replay satisfied it "
                                 f"(encoding disagreement) -> undecided; see {path}")
                 continue
-        path = os.path.join(VERIF, 'replays', prop, _fname(o['name']) + '.json')
+        path = os.path.join(_outdir('replays'), prop, _fname(o['name']) + '.json')
         json.dump(rp, open(path, 'w'), indent=1, default=str)
         print(f'VIOLATION property={prop} replay={path}{suffix}')
         exit_code = 1
@@ -294,9 +294,16 @@ def write_evidence(prop, tier, seed, results, crashes, problems, n_ob, n_proved,
         coverage.setdefault('evaluations', n_ob)
         coverage.setdefault('distinct_nontrivial', len(per_clause))
         coverage.setdefault('rule', 'one evaluation = one obligation (path x clause); distinct = distinct named clauses')
-    os.makedirs(os.path.join(VERIF, 'evidence'), exist_ok=True)
-    with open(os.path.join(VERIF, 'evidence', f'{prop}.json'), 'w') as f:
+    os.makedirs(_outdir('evidence'), exist_ok=True)
+    with open(os.path.join(_outdir('evidence'), f'{prop}.json'), 'w') as f:
         json.dump(evd, f, indent=1, default=str)
+
+
+def _outdir(kind: str) -> str:
+    """evidence/ and replays/ belong to runs against /repo itself; runs against a scratch copy (--repo) write elsewhere."""
+    if os.path.realpath(os.environ.get('PYVC_REPO', '/repo')) == os.path.realpath('/repo'):
+        return os.path.join(VERIF, kind)
+    return os.path.join(VERIF, '.scratch', kind)
 
 
 def _standing_assumptions():
